@@ -125,6 +125,35 @@ func ruleFileNumRecycling(p *Prog, r *Report, rule string) {
 		for _, a := range fn.AnonFuncs {
 			inCb += countInstr(a, reuse)
 		}
+		// a table's number names its namespace in the shared block cache (key = file number, block
+		// offset): recycling it while blocks of the removed table may still be cached serves them
+		// as the next table's content (D15). In the callback every path to reuseFileNum passes
+		// blockCache.EvictNS, or is on the `blockCache == nil` side of a test.
+		for _, a := range fn.AnonFuncs {
+			if countInstr(a, reuse) == 0 {
+				continue
+			}
+			r.Site(1)
+			evict := func(in ssa.Instruction) bool {
+				return isCallTo(in, "(*leveldb/cache.Cache).EvictNS") && argIs(in, 0, mFieldLoad("leveldb.tOps", "blockCache"))
+			}
+			noCache := nilAtom("t.blockCache==nil", mFieldLoad("leveldb.tOps", "blockCache"))
+			// search a path to the recycling that avoids the eviction, assuming a block cache exists
+			evR := boolAtom("t.evictRemoved", mFieldLoad("leveldb.tOps", "evictRemoved"))
+			var w []*ssa.BasicBlock
+			for _, ev := range []bool{true, false} {
+				as := []Atom{noCache, evR}
+				vs := []bool{false, ev}
+				if w = findPathV(entryPoint(a), atomEdges(as, vs), evict, reuse, atomVals(as, vs)); w != nil {
+					break
+				}
+			}
+			if w != nil {
+				r.Fail(fnName(a), "recycle-after-blocks-evicted", "a table's number is recycled only after its blocks left the block cache (or there is no block cache)", "with a block cache present a path reaches s.reuseFileNum without blockCache.EvictNS(fd.Num): the next table with this number is read through the removed table's cached blocks", p.posOfLast(w, reuse), p.renderPath(w))
+			} else {
+				r.OK(fnName(a), "recycle-after-blocks-evicted", "a table's number is recycled only after its blocks left the block cache (or there is no block cache)")
+			}
+		}
 		r.Check(direct == 0 && inCb == 1, fnName(fn), "table-number-recycled-in-callback", "tOps.remove recycles the table's number only from the deletion callback (after the last reader released the table and the file was removed)", fmt.Sprintf("%d direct calls, %d in the callback: a number recycled while a reader still holds the table lets the next table overwrite the file under the reader, and the deferred Remove then deletes the new table", direct, inCb), p.Pos(fn.Pos()))
 	}
 }
